@@ -268,3 +268,56 @@ def time_limit_obligations(fnode):
         nxt = body[idx[0] + 1] if idx and idx[0] + 1 < len(body) else None
         out.append(("the protected try directly follows the statement that arms the alarm", isinstance(nxt, ast.Try) and bool(nxt.finalbody), arms[0].lineno))
     return out
+
+
+def restore_obligations(fnode):
+    """E6 (on functions that hand their per-rank lists to make_changes): make_changes(all_fun, all_sym, all_inv_subs, S, Y, V) -- verified in C13 -- propagates the entry
+    of a function exactly where its STRING in S differs from the replicated list; this is what makes a timed-out step harmless although the substitutions recorded in V
+    before the timeout are not taken back.  Obligation per time-limited region whose body stores into S[idx]: the timeout handler puts back S[idx] and Y[idx] from names that
+    were bound to S[idx] / Y[idx] in the same block before the `try`, and neither those names nor the index are rebound inside the region."""
+    calls = [n for n in ast.walk(fnode) if isinstance(n, ast.Call) and (_dotted(n.func) or "").split(".")[-1] == "make_changes" and len(n.args) == 6
+             and all(isinstance(a, ast.Name) for a in n.args[3:5])]
+    if not calls:
+        return []
+    S, Y = calls[0].args[3].id, calls[0].args[4].id
+    par = _parents(fnode)
+    out = []
+    for (t, w) in regions(fnode):
+        stores = [n for b in t.body for n in ast.walk(b) if isinstance(n, ast.Subscript) and isinstance(n.ctx, ast.Store) and isinstance(n.value, ast.Name) and n.value.id == S]
+        if not stores:
+            continue
+        idx = ast.unparse(stores[0].slice)
+        handler = [h for h in t.handlers if _catches_timeout(h)][0]
+        # the block that contains the try statement
+        parent = par.get(id(t))
+        block = None
+        for f in ("body", "orelse", "finalbody"):
+            b = getattr(parent, f, None)
+            if isinstance(b, list) and any(s is t for s in b):
+                block = b
+        before = block[:[k for k, s in enumerate(block) if s is t][0]] if block else []
+        for lst in (S, Y):
+            restored = None
+            for s in handler.body:
+                if isinstance(s, ast.Assign) and len(s.targets) == 1 and ast.unparse(s.targets[0]) == "%s[%s]" % (lst, idx) and isinstance(s.value, ast.Name):
+                    restored = s.value.id
+            ok = restored is not None
+            why = ""
+            if not ok:
+                why = "the handler does not assign %s[%s] from a saved name" % (lst, idx)
+            else:
+                saved_at = [k for k, s in enumerate(before) if isinstance(s, ast.Assign) and len(s.targets) == 1 and isinstance(s.targets[0], ast.Name) and s.targets[0].id == restored
+                            and ast.unparse(s.value) == "%s[%s]" % (lst, idx)]
+                if not saved_at:
+                    ok, why = False, "`%s = %s[%s]` does not precede the try in the same block" % (restored, lst, idx)
+                else:
+                    def comp_targets(s_):
+                        # comprehension variables live in their own scope: `[.. for i in ..]` does not rebind the enclosing i
+                        return {id(m) for c in ast.walk(s_) if isinstance(c, (ast.ListComp, ast.SetComp, ast.DictComp, ast.GeneratorExp)) for g in c.generators for m in ast.walk(g.target)}
+                    later = [n for s in before[saved_at[-1] + 1:] + list(t.body) for ct in [comp_targets(s)] for n in ast.walk(s)
+                             if isinstance(n, ast.Name) and isinstance(n.ctx, (ast.Store, ast.Del)) and n.id in (restored, idx) and id(n) not in ct]
+                    later += [n for s in before[saved_at[-1] + 1:] for n in ast.walk(s) if isinstance(n, ast.Subscript) and isinstance(n.ctx, ast.Store) and isinstance(n.value, ast.Name) and n.value.id == lst]
+                    if later:
+                        ok, why = False, "%s is rebound (or %s stored into) between the save and the end of the region (line %d)" % (restored + " / " + idx, lst, later[0].lineno)
+            out.append(("region at line %d: a timeout puts %s[%s] back to what it was when the region was entered%s" % (t.lineno, lst, idx, (" -- " + why) if why else ""), ok, t.lineno))
+    return out
